@@ -234,6 +234,153 @@ theorem c08_resow_keeps_results (P : Perms) (s s' : St β) (d : Dir β) (sw : Sw
     · cases h
       exact ⟨_, rfl, by simp [hd]⟩
 
+/-! ### `check_bad` -/
+
+/-- a stored result is bad w.r.t. the batch file of the same id: unreadable, or of the wrong length -/
+def badEntry (batches : List (Nat × List (List Nat))) (kv : Nat × ResFile β) : Bool :=
+  match kv.2 with
+  | .bad => true
+  | .good rs =>
+    match lookup batches kv.1 with
+    | some b => rs.length != b.length
+    | none => false
+
+/-- the loop body of `checkBad`, spelled out so the fold lemma can name it -/
+def checkBadStep (d : Dir β) (acc : Except Err (Dir β × List Nat)) (kv : Nat × ResFile β) :
+    Except Err (Dir β × List Nat) :=
+  match acc with
+  | .error e => .error e
+  | .ok (d', bad) =>
+    match lookup d.batches kv.1 with
+    | none => .error .missingFile
+    | some b =>
+      let isBad := match kv.2 with
+        | .bad => true
+        | .good rs => rs.length != b.length
+      if isBad then .ok ({ d' with results := erase d'.results kv.1 }, bad ++ [kv.1]) else .ok (d', bad)
+
+theorem checkBad_eq_fold (d : Dir β) : checkBad d = d.results.foldl (checkBadStep d) (.ok (d, [])) := rfl
+
+theorem checkBad_fold (d : Dir β) (l R : List (Nat × ResFile β)) (bad0 : List Nat)
+    (hl : ∀ kv ∈ l, (lookup d.batches kv.1).isSome = true) :
+    l.foldl (checkBadStep d) (.ok ({ d with results := R }, bad0)) =
+      .ok ({ d with results := R.filter (fun kv => !(keys (l.filter (badEntry d.batches))).contains kv.1) },
+           bad0 ++ keys (l.filter (badEntry d.batches))) := by
+  induction l generalizing R bad0 with
+  | nil =>
+    have : R.filter (fun _ => true) = R := List.filter_eq_self.mpr (fun _ _ => rfl)
+    simp [keys, this]
+  | cons kv l ih =>
+    have hkv := hl kv (by simp)
+    have hl' : ∀ kv ∈ l, (lookup d.batches kv.1).isSome = true := fun x hx => hl x (by simp [hx])
+    obtain ⟨b, hb⟩ := Option.isSome_iff_exists.mp hkv
+    rw [List.foldl_cons]
+    by_cases hbad : badEntry d.batches kv = true
+    · have hstep : checkBadStep d (.ok ({ d with results := R }, bad0)) kv =
+          .ok ({ d with results := erase R kv.1 }, bad0 ++ [kv.1]) := by
+        unfold badEntry at hbad
+        unfold checkBadStep
+        simp only [hb]
+        cases hk : kv.2 with
+        | bad => simp
+        | good rs => simp only [hk, hb] at hbad; simp [hbad]
+      have e1 : (erase R kv.1).filter (fun x => !(keys (l.filter (badEntry d.batches))).contains x.1) =
+          R.filter (fun x => !(keys (kv :: l.filter (badEntry d.batches))).contains x.1) := by
+        unfold erase
+        rw [List.filter_filter]
+        apply List.filter_congr
+        intro x _
+        simp only [keys, List.map_cons, List.contains_cons, Bool.not_or, bne]
+        rw [Bool.and_comm]
+      have e2 : bad0 ++ [kv.1] ++ keys (l.filter (badEntry d.batches)) =
+          bad0 ++ keys (kv :: l.filter (badEntry d.batches)) := by simp [keys]
+      rw [hstep, ih _ _ hl', List.filter_cons_of_pos hbad, e1, e2]
+    · have hbad' : badEntry d.batches kv = false := by simpa using hbad
+      have hstep : checkBadStep d (.ok ({ d with results := R }, bad0)) kv =
+          .ok ({ d with results := R }, bad0) := by
+        unfold badEntry at hbad'
+        unfold checkBadStep
+        simp only [hb]
+        cases hk : kv.2 with
+        | bad => simp [hk] at hbad'
+        | good rs => simp only [hk, hb] at hbad'; simp [hbad']
+      rw [hstep, ih _ _ hl', List.filter_cons_of_neg (by simpa using hbad')]
+
+theorem eq_of_key_eq (R : List (Nat × γ)) (hnd : (keys R).Nodup) (a b : Nat × γ) (ha : a ∈ R) (hb : b ∈ R)
+    (h : a.1 = b.1) : a = b := by
+  induction R with
+  | nil => cases ha
+  | cons x xs ih =>
+    simp only [keys, List.map_cons, List.nodup_cons, List.mem_map, not_exists, not_and] at hnd
+    rcases List.mem_cons.mp ha with rfl | ha' <;> rcases List.mem_cons.mp hb with rfl | hb'
+    · rfl
+    · exact absurd h.symm (hnd.1 b hb')
+    · exact absurd h (hnd.1 a ha')
+    · exact ih hnd.2 ha' hb'
+
+/-- **`check_bad(delete_bad=True)`**: on a well-formed directory it never fails, reports exactly the ids whose stored
+result is unreadable or of the wrong length (in listing order), removes exactly those result files, leaves every batch
+file and the crop information alone, and keeps the directory well formed — so afterwards every reported count again
+matches the result files that are really there (`c08_counts`, `c08_missing_spec`, `c08_ready_iff` apply to `d'`) -/
+theorem c08_check_bad (d : Dir β) (B : Nat) (hwf : WF d B) :
+    ∃ d' bad, checkBad d = .ok (d', bad) ∧
+      bad = keys (d.results.filter (badEntry d.batches)) ∧
+      d'.results = d.results.filter (fun kv => !badEntry d.batches kv) ∧
+      d'.batches = d.batches ∧ d'.info = d.info ∧ WF d' B := by
+  have hl : ∀ kv ∈ d.results, (lookup d.batches kv.1).isSome = true := by
+    intro kv hkv
+    have hk : kv.1 ∈ keys d.results := List.mem_map.mpr ⟨kv, hkv, rfl⟩
+    exact (mem_keys_iff _ _).mp ((hwf.bmem _).mpr (hwf.rsub _ hk))
+  have hfold := checkBad_fold d d.results d.results [] hl
+  have hres : d.results.filter (fun kv => !(keys (d.results.filter (badEntry d.batches))).contains kv.1) =
+      d.results.filter (fun kv => !badEntry d.batches kv) := by
+    apply List.filter_congr
+    intro x hx
+    congr 1
+    by_cases hb : badEntry d.batches x = true
+    · rw [hb]
+      simp only [List.contains_iff_mem]
+      exact List.mem_map.mpr ⟨x, List.mem_filter.mpr ⟨hx, hb⟩, rfl⟩
+    · have hb' : badEntry d.batches x = false := by simpa using hb
+      rw [hb']
+      apply Bool.eq_false_iff.mpr
+      intro hc
+      rw [List.contains_iff_mem] at hc
+      obtain ⟨y, hy, hyx⟩ := List.mem_map.mp hc
+      have hy' := List.mem_filter.mp hy
+      have := eq_of_key_eq d.results hwf.rnodup y x hy'.1 hx hyx
+      subst this
+      rw [hy'.2] at hb'
+      cases hb'
+  rw [hres] at hfold
+  refine ⟨{ d with results := d.results.filter (fun kv => !badEntry d.batches kv) },
+    keys (d.results.filter (badEntry d.batches)), ?_, rfl, rfl, rfl, rfl, ?_⟩
+  · rw [checkBad_eq_fold]
+    simpa using hfold
+  refine ⟨hwf.bnodup, hwf.bmem, ?_, ?_⟩
+  · show (keys (d.results.filter _)).Nodup
+    exact hwf.rnodup.sublist ((List.filter_sublist).map _)
+  · intro i hi
+    obtain ⟨y, hy, rfl⟩ := List.mem_map.mp hi
+    exact hwf.rsub _ (List.mem_map.mpr ⟨y, (List.mem_filter.mp hy).1, rfl⟩)
+
+/-- nothing bad is left: after `check_bad` every stored result is readable and has its batch's length -/
+theorem c08_check_bad_clean (d d' : Dir β) (bad : List Nat) (B : Nat) (hwf : WF d B) (h : checkBad d = .ok (d', bad)) :
+    ∀ kv ∈ d'.results, badEntry d'.batches kv = false := by
+  obtain ⟨d'', bad', h', _, hres, hb, _, _⟩ := c08_check_bad d B hwf
+  rw [h] at h'
+  cases h'
+  intro kv hkv
+  rw [hres] at hkv
+  rw [hb]
+  simpa using (List.mem_filter.mp hkv).2
+
+/-! Non-vacuity: batch 1's result is short, batch 3's unreadable, batch 2's fine -/
+example : checkBad ({ batches := [(1, [[0], [1]]), (2, [[2], [3]]), (3, [[4]])],
+                      results := [(1, .good [7]), (3, .bad), (2, .good [8, 9])] } : Dir Nat)
+    = .ok ({ batches := [(1, [[0], [1]]), (2, [[2], [3]]), (3, [[4]])], results := [(2, .good [8, 9])] }, [1, 3]) := by
+  rfl
+
 /-! Non-vacuity -/
 example : WF ({ batches := [(1, [[0]]), (2, [[1]])], results := [(2, .good [7])] } : Dir Nat) 2 := by
   refine ⟨by decide, ?_, by decide, ?_⟩
